@@ -15,6 +15,7 @@
 (***************************************************************************)
 EXTENDS Sem, SemConv
 
+\* (the reference arithmetic needs the BigInt domain; under dom_int the module only has to parse)
 QP      == 200
 QOne    == ZPow2(QP)
 QMul(a, b) == ZFloorShr(ZMul(a, b), QP)
@@ -40,8 +41,8 @@ QAtanInv(n) ==
                               IF j % 2 = 0 THEN ZAdd(acc, QDivI(pw, 2 * j + 1)) ELSE ZSub(acc, QDivI(pw, 2 * j + 1)))
   IN S(0, QDivI(QOne, n), Z0)
 QPi == ZSub(ZShl(QAtanInv(5), 4), ZShl(QAtanInv(239), 2))               \* Machin
-ASSUME ZEq(ZFloorShr(QPi, QP - 20), ZI(3294198))                         \* pi * 2^20 = 3294198.9...
-ASSUME ZEq(ZFloorShr(QLn2, QP - 20), ZI(726817))                         \* ln2 * 2^20 = 726817.4...
+ASSUME DomName = "int" \/ ZEq(ZFloorShr(QPi, QP - 20), ZI(3294198))                         \* pi * 2^20 = 3294198.9...
+ASSUME DomName = "int" \/ ZEq(ZFloorShr(QLn2, QP - 20), ZI(726817))                         \* ln2 * 2^20 = 726817.4...
 
 \* e^t for a Q number t >= 0: Taylor series of e^(t/1024), then ten squarings
 QExpPos(t) ==
